@@ -1127,3 +1127,73 @@ Proof.
   - cbn. intros [H | [H | [H | []]]]; inversion H.
   - left. reflexivity.
 Qed.
+
+(* ------------------------------------------------------------------ what is recorded; the order over histories *)
+
+Lemma recorded_app : forall a b, recorded (a ++ b) = recorded a ++ recorded b.
+Proof. intros. unfold recorded. rewrite filter_app, map_app. reflexivity. Qed.
+
+Lemma recorded_mounts : forall ms, recorded (map (fun e : entry => (Mount, e)) ms) = ms.
+Proof. induction ms as [|m ms IH]; [reflexivity|]. unfold recorded in *. cbn. rewrite IH. reflexivity. Qed.
+
+Lemma recorded_part : forall reuse l,
+  recorded (map (fun e => if id_mem (id_of e) reuse then (Keep, e) else (Unmount, detach_form e)) l) =
+  filter (fun e => id_mem (id_of e) reuse) l.
+Proof.
+  intros reuse l. induction l as [|e l IH]; [reflexivity|]. unfold recorded in *. cbn [map filter].
+  destruct (id_mem (id_of e) reuse); cbn; [rewrite IH; reflexivity | exact IH].
+Qed.
+
+(* if every change is performed, the profile saved by executeMountProfileUpdate is: the kept entries IN REVERSE of their
+   order in the current profile, then the mounted entries in mount order *)
+Theorem recorded_needed_changes : forall fs current desired,
+  let cur := map clean_entry current in
+  let des := isort less_origin (map clean_entry desired) in
+  let reuse := reuse_of current desired in
+  recorded (needed_changes fs current desired) =
+  rev (filter (fun e => id_mem (id_of e) reuse) cur) ++
+  mount_order fs (filter (fun e => negb (id_mem (id_of e) reuse)) des).
+Proof.
+  intros. unfold needed_changes. rewrite recorded_app, recorded_mounts. unfold unmount_part.
+  rewrite recorded_part, filter_rev'. reflexivity.
+Qed.
+
+(* over a history the unmount order sentence fails: mount /a and /a/b, keep both (saved reversed), remove both:
+   /a is unmounted before /a/b, which was mounted beneath it after it *)
+Lemma unmount_order_history_refuted :
+  exists fs a ab,
+    let c1 := recorded (needed_changes fs [] [a; ab]) in
+    let c2 := recorded (needed_changes fs c1 [a; ab]) in
+    beneath ab a = true /\ c1 = [a; ab] /\ c2 = [ab; a] /\
+    unmounts_of (needed_changes fs c2 []) = [detach_form a; detach_form ab].
+Proof.
+  exists (mkFs [bs "/"%string; bs "/a"%string; bs "/a/b"%string] [] []),
+         (mkEntry (bs "/s/src"%string) (bs "/a"%string) (bs "none"%string) [bs "bind"%string] 0 0),
+         (mkEntry (bs "/s/src"%string) (bs "/a/b"%string) (bs "none"%string) [bs "bind"%string] 0 0).
+  vm_compute. repeat split; reflexivity.
+Qed.
+
+(* the mimic-root hypothesis of mount_parent_first is needed only when both entries need a mimic: if the child's target
+   exists in the form needed (or it is an overname entry) and existing targets are closed under containment, the parent
+   comes first without it *)
+Theorem mount_parent_first_existing : forall fs current desired m1 m2,
+  let nc := needed_changes fs current desired in
+  In (Mount, m1) nc -> In (Mount, m2) nc ->
+  x_origin m1 = x_origin m2 -> beneath m2 m1 = true -> with_slash (e_dir m1) <> with_slash (e_dir m2) ->
+  is_overname m2 || exists_as fs m2 = true -> is_overname m1 || exists_as fs m1 = true ->
+  precedes (Mount, m1) (Mount, m2) nc.
+Proof.
+  intros fs current desired m1 m2 nc I1 I2 EO B Hne X2 X1.
+  assert (L : less_origin m1 m2 = true) by (apply same_origin_less; [exact EO | apply beneath_dir_lt; assumption]).
+  unfold nc, needed_changes in *.
+  apply in_app_or in I1 as [I1 | I1]; [exfalso; eapply mount_not_in_part; exact I1|].
+  apply in_app_or in I2 as [I2 | I2]; [exfalso; eapply mount_not_in_part; exact I2|].
+  apply precedes_app_r.
+  apply in_map_iff in I1 as (a & Ea & Ia). inversion Ea; subst a.
+  apply in_map_iff in I2 as (b & Eb & Ib). inversion Eb; subst b.
+  apply (precedes_map (fun e => (Mount, e))).
+  apply mount_order_In in Ia. apply mount_order_In in Ib.
+  unfold mount_order. apply precedes_app_l.
+  apply isort_precedes; [apply less_origin_asym | apply less_origin_negtrans | | | exact L];
+    apply filter_In; split; assumption.
+Qed.
